@@ -31,12 +31,17 @@ m = {
     "engines": [{"name": "pvx", "path": "/verif/pvx", "serves_properties": sorted(CHECKS),
                  "kind_free_text": "repository-specific static analysis on CPython ast: class/MRO/call resolution, structured path "
                                    "counting, read-set closures, static signature binding, clone/sibling/twin comparison by polynomial "
-                                   "normal form, and small abstract interpreters (degree, sign, affine, parity, rotation, length). "
+                                   "normal form, small abstract interpreters (degree, sign, affine, parity, rotation, length), and a "
+                                   "reference-equivalence loader (AST rewriting system). "
                                    "pyrex is parsed, never imported or executed."}],
     "checks": checks,
     "not_applicable": [{"property_id": k, "reason": v} for k, v in sorted(NOT_APPLICABLE.items())],
     "notes": "Static analysis only. exit 0 = all rules hold (KNOWN-FINDING lines for listed findings), exit 1 = VIOLATION, "
-             "exit 2 = ANALYSIS-ERROR (anchor vanished / obligation no longer decidable / self-test failed). "
+             "exit 2 = ANALYSIS-ERROR (anchor vanished / obligation no longer decidable / self-test failed / a finding lies in a function "
+             "that was restructured by more than 8 lines against its confirmed form: DESIGN.md 2.2a). The loader reads a function that is "
+             "equivalent to its confirmed form under the rewriting system of pvx/core/canon.py (soundness tested by tools/canon_selfcheck.py) "
+             "in the confirmed spelling. Thorough tier = quick + fault catalogue + robustness battery (14 behaviour-preserving transformations "
+             "of the anchor modules). Measured on 80 seeded changes and 60 refactorings from independent sub-agents: DESIGN.md 8-8c. "
              "Genuine defects repaired in /repo by 'fix:' commits: " + ", ".join(FIX_COMMITS) + ". See DESIGN.md.",
 }
 (HERE / "MANIFEST.json").write_text(json.dumps(m, indent=1) + "\n")
